@@ -43,6 +43,19 @@ let string_of_n (x : n) : string =
 let int_of_n (x : n) : int =
   match x with N0 -> 0 | Npos p -> Int64.to_int (int64_of_pos p 1)
 
+
+(* ---------- arbitrary-size decimal printing (extracted N.div_eucl by 10) ---------- *)
+let rec dec_of_n (x : n) : string =
+  match x with
+  | N0 -> ""
+  | _ -> let (q, r) = divmod10 x in dec_of_n q ^ string_of_int (int_of_n r)
+let big_of_n x = match x with N0 -> "0" | _ -> dec_of_n x
+let big_of_z (x : z) = match x with Z0 -> "0" | Zpos p -> big_of_n (Npos p) | Zneg p -> "-" ^ big_of_n (Npos p)
+let z_of_string (s : string) : z =
+  if String.length s > 0 && s.[0] = '-' then
+    (match n_of_string (String.sub s 1 (String.length s - 1)) with N0 -> Z0 | Npos p -> Zneg p)
+  else (match n_of_string s with N0 -> Z0 | Npos p -> Zpos p)
+
 (* ---------- token reader ---------- *)
 type reader = { toks : string array; mutable pos : int }
 
@@ -311,6 +324,23 @@ let handle (r : reader) : unit =
       out_bool (contains a b);
       out_n (msum a);
       out_ranges (overlapped_by a b)
+  | "MOM" ->
+      (* MOM <hpx|zuniq> <qty> <w> <ranges M> k (key value)*  ->
+         numerator of the weighted sum over 2^shift(depth 0) ; for hpx also the filter
+         n (value width shift)* *)
+      let kind = next r in
+      let q = next_qty r in
+      let w = next_n r in
+      let m = next_ranges r in
+      let kvs = next_list r (fun r -> let k = next_n r in let v = z_of_string (next r) in (k, v)) in
+      out_s "OK";
+      if kind = "hpx" then begin
+        out_s (" " ^ big_of_z (mom_sum_hpx w m kvs));
+        let f = mom_filter_hpx w m kvs in
+        out_s (" " ^ string_of_int (List.length f));
+        List.iter (fun ((v, wd), sh) -> out_s (" " ^ big_of_z v); out_n wd; out_n sh) f
+      end else
+        out_s (" " ^ big_of_z (mom_sum_zuniq q w m kvs))
   | "CANON" ->
       let l = next_ranges r in
       out_s "OK";
